@@ -704,7 +704,9 @@ Definition kf_of (prop : N) (c : cfg) (s : st) (v v' : view) (t : taint) (o : op
     else if cl =? 1 then
       (* a message the client still holds whose record is really gone from the session (v_prev v' = the snapshot after
          this step) and whose loss one of the record-deleting defects explains *)
-      if existsb (fun p => (inb (p_uid p) (t_marked t) || inb (p_uid p) (t_collided t)) && negb (rec_for_pend p (v_prev v')))
+      if existsb (fun p => inb (p_uid p) (t_collided t)      (* its record was hit by an identifier of the other direction
+                                                                 (whatever is stored under that number now is not it) *)
+                           || (inb (p_uid p) (t_marked t) && negb (rec_for_pend p (v_prev v'))))
                  (v_pend v')
       then Some (tag "KF_C11_record_lost")
       else if t_resumed t then Some (tag "KF_C11_resume_resets_quota")
